@@ -14,21 +14,22 @@ import (
 
 // SrvConf configures the real serving endpoint of a scripted-client scenario.
 type SrvConf struct {
-	Transport string   `json:"transport"` // tcp, ws, inproc
-	TLSCap    bool     `json:"tls_cap"`   // tcp: listener has a TLS config; ws: wss
-	Comp      []string `json:"comp"`
-	Enc       []string `json:"enc"`
-	Schemes   []string `json:"schemes"`
-	Full      bool     `json:"full"`                // real Server from ServerBuilder instead of a bare ServerChannel
-	Buf       int      `json:"buf"`                 // channel buffer size
-	AuthOut   []int    `json:"auth_out"`            // outcome of the k-th authenticate call: 0 member, 1 unknown, 2 round trip, 3 error, 4 authority, 5 empty role
-	RegOut    int      `json:"reg_out"`             // 0 node derived from candidate, 1 error, 2 fixed other node
-	PostEstab int      `json:"post_estab"`          // bare mode, once the script is over: 0 leave, 1 FinishSession, 2 FailSession
-	EstabCtxS int      `json:"estab_ctx_s"`         // bare mode: EstablishSession context timeout in seconds (0 = 120)
-	VanishIn  string   `json:"vanish_in"`           // "", auth, reg: the peer vanishes while the server is inside that callback
-	VanishRST bool     `json:"vanish_rst"`          // reset instead of an orderly close
-	CloseIn   string   `json:"close_in,omitempty"`  // "", auth, reg: Server.Close is called while the server is inside that callback (full mode)
-	AutoPing  bool     `json:"auto_ping,omitempty"` // full mode: the server is built with AutoReplyPings()
+	Transport   string   `json:"transport"` // tcp, ws, inproc
+	TLSCap      bool     `json:"tls_cap"`   // tcp: listener has a TLS config; ws: wss
+	Comp        []string `json:"comp"`
+	Enc         []string `json:"enc"`
+	Schemes     []string `json:"schemes"`
+	Full        bool     `json:"full"`                    // real Server from ServerBuilder instead of a bare ServerChannel
+	Buf         int      `json:"buf"`                     // channel buffer size
+	AuthOut     []int    `json:"auth_out"`                // outcome of the k-th authenticate call: 0 member, 1 unknown, 2 round trip, 3 error, 4 authority, 5 empty role
+	RegOut      int      `json:"reg_out"`                 // 0 node derived from candidate, 1 error, 2 fixed other node
+	PostEstab   int      `json:"post_estab"`              // bare mode, once the script is over: 0 leave, 1 FinishSession, 2 FailSession
+	EstabCtxS   int      `json:"estab_ctx_s"`             // bare mode: EstablishSession context timeout in seconds (0 = 120)
+	VanishIn    string   `json:"vanish_in"`               // "", auth, reg: the peer vanishes while the server is inside that callback
+	VanishRST   bool     `json:"vanish_rst"`              // reset instead of an orderly close
+	CloseIn     string   `json:"close_in,omitempty"`      // "", auth, reg: Server.Close is called while the server is inside that callback (full mode)
+	AutoPing    bool     `json:"auto_ping,omitempty"`     // full mode: the server is built with AutoReplyPings()
+	AuthDelayMs int      `json:"auth_delay_ms,omitempty"` // the authentication callback takes this long (concurrent handshakes overlap inside it)
 	// EarlySender (full mode): the registration callback hands the channel to a task that sends a
 	// message on it as soon as the channel calls itself established
 	EarlySender bool `json:"early_sender,omitempty"`
@@ -198,6 +199,9 @@ func (s *SUT) recAuth(conn int, id lime.Identity, scheme string, auth interface{
 		json.Unmarshal([]byte(canonJSON(auth)), &am)
 	}
 	s.h.Add(conn, "auth", map[string]interface{}{"identity": id.String(), "scheme": scheme, "authentication": am, "outcome": outcomeNames[o]}, "", "")
+	if s.Conf.AuthDelayMs > 0 {
+		time.Sleep(time.Duration(s.Conf.AuthDelayMs) * time.Millisecond)
+	}
 }
 
 func (s *SUT) register(conn int) func(ctx context.Context, cand lime.Node, c *lime.ServerChannel) (lime.Node, error) {
